@@ -302,7 +302,12 @@ func wDecodeBlock(bytes []byte) (*pb.Block, bool) {
 func VerifC07Wire() {
 	vForbidPanic("C07")
 	vTimerMode(0)
-	focus := vChoose("focus", 5)
+	pads := vParamOpt("padblocks")
+	nfocus := 5
+	if pads > 0 {
+		nfocus = 1 // the fork family varies the history, not the content
+	}
+	focus := vChoose("focus", nfocus)
 	vLabel("focus=" + [...]string{"fact-term", "rule-body", "rule-expression", "check", "context"}[focus])
 	rng := &chainRNG{}
 	root := ed25519Key(vWide("root", 32))
@@ -330,6 +335,16 @@ func VerifC07Wire() {
 	if err != nil {
 		return
 	}
+	// fork family: concrete blocks in between, so that the envelope's block list has spare capacity
+	for i := 0; i < pads; i++ {
+		padb := tok.CreateBlock()
+		padb.AddFact(Fact{Predicate{Name: "pad", IDs: []Term{Integer(i)}}})
+		tok, err = tok.Append(rng, padb.Build())
+		vAssert(err == nil, "C07.append")
+		if err != nil {
+			return
+		}
+	}
 	// a second block sharing symbols with the first
 	bf := -1 // a plain fact (its name may still coincide with an authority symbol)
 	if vParam("blkfocus") > 0 {
@@ -356,6 +371,14 @@ func VerifC07Wire() {
 	if err != nil {
 		return
 	}
+	if pads > 0 {
+		// a sibling derived from the same parent afterwards: what it carries must not reach tok2's bytes
+		sb := tok.CreateBlock()
+		sb.AddFact(Fact{Predicate{Name: wName("sibling.name"), IDs: []Term{Integer(vInt64("sibling.c"))}}})
+		_, serr := tok.Append(rng, sb.Build())
+		vAssert(serr == nil, "C07.append")
+		vLabel("sibling appended afterwards")
+	}
 	// ---- what is on the wire
 	data, err := tok2.Serialize()
 	vAssert(err == nil, "C07.serialize")
@@ -364,19 +387,28 @@ func VerifC07Wire() {
 	}
 	var env pb.Biscuit
 	vAssert(proto.Unmarshal(data, &env) == nil, "C07.decode-envelope")
-	if env.Authority == nil || len(env.Blocks) != 1 {
+	if env.Authority == nil || len(env.Blocks) != 1+pads {
 		vAssert(false, "C07.envelope-shape")
 		return
 	}
 	pa, ok1 := wDecodeBlock(env.Authority.Block)
-	pbk, ok2 := wDecodeBlock(env.Blocks[0].Block)
+	pbk, ok2 := wDecodeBlock(env.Blocks[pads].Block)
 	vAssert(ok1 && ok2, "C07.decode-blocks")
 	if !ok1 || !ok2 {
 		return
 	}
+	earlier := append([]string{}, pa.Symbols...)
+	for i := 0; i < pads; i++ {
+		pp, okp := wDecodeBlock(env.Blocks[i].Block)
+		vAssert(okp, "C07.decode-blocks")
+		if !okp {
+			return
+		}
+		earlier = append(earlier, pp.Symbols...)
+	}
 	vCover("decoded")
 	vAssert(wBlockOK(pa, ac, nil), "C07.authority-content")
-	vAssert(wBlockOK(pbk, bc, pa.Symbols), "C07.block-content")
+	vAssert(wBlockOK(pbk, bc, earlier), "C07.block-content")
 	if hasID {
 		vAssert(env.RootKeyId != nil && *env.RootKeyId == id, "C07.root-key-id")
 	} else {
@@ -400,11 +432,15 @@ func VerifC07Wire() {
 	}
 	// the reloaded token's blocks, converted back to messages, are the same messages
 	pa2, err1 := tokenBlockToProtoBlock(re.authority)
-	pb2, err2 := tokenBlockToProtoBlock(re.blocks[0])
+	if len(re.blocks) != 1+pads {
+		vAssert(false, "C07.roundtrip-shape")
+		return
+	}
+	pb2, err2 := tokenBlockToProtoBlock(re.blocks[pads])
 	vAssert(err1 == nil && err2 == nil, "C07.roundtrip-convert")
 	if err1 == nil && err2 == nil {
 		vAssert(wBlockOK(pa2, ac, nil), "C07.roundtrip-authority-content")
-		vAssert(wBlockOK(pb2, bc, pa2.Symbols), "C07.roundtrip-block-content")
+		vAssert(wBlockOK(pb2, bc, earlier), "C07.roundtrip-block-content")
 	}
 	vCover("roundtrip")
 }
